@@ -207,6 +207,24 @@ def run(ctx: Any, prog: Program) -> None:
     else:
         ctx.check('C08.D3', dotted(sel[0].value.body) == 'NullIDMan' and dotted(sel[0].value.orelse) == 'IDMan', vm, sel[0], f'`{ast.unparse(sel[0].value)}`: the uniqueness-enforcing IDMan must be used unless preserve_ids is set',
                   text='manager class selection')
+    # destination map chosen by truthiness (`vmf_file or self.map`): sound only while a VMF object can never be falsy
+    vmf_cls = vm.cls('VMF')
+    falsy_hooks = [st for st in vmf_cls.body if isinstance(st, ast.FunctionDef) and st.name in ('__len__', '__bool__')]
+    n_sel = 0
+    for qual, fns in vm.all_funcs().items():
+        for fn in fns:
+            opt_vmf = {a.arg for a in fn.args.args + fn.args.kwonlyargs if a.annotation is not None and 'VMF' in ast.unparse(a.annotation)}
+            for n in walk_no_nested(fn):
+                if isinstance(n, ast.BoolOp) and isinstance(n.op, ast.Or) and isinstance(n.values[0], ast.Name) and n.values[0].id in opt_vmf:
+                    n_sel += 1
+                    ctx.check('C08.D3', not falsy_hooks, vm, n, f'`{ast.unparse(n)}` selects the destination map by truthiness, but VMF defines {[h.name for h in falsy_hooks]}: an empty destination map is falsy, '
+                              'the copy is created in (and takes its id from) the source map and then collides with ids the destination hands out', func=qual, text=f'{qual}: destination chosen by `or`')
+                if isinstance(n, ast.IfExp) and isinstance(n.test, ast.Compare) and isinstance(n.test.left, ast.Name) and n.test.left.id in opt_vmf and isinstance(n.test.ops[0], (ast.Is, ast.IsNot)) \
+                        and isinstance(n.test.comparators[0], ast.Constant) and n.test.comparators[0].value is None:
+                    n_sel += 1      # explicit None test: independent of VMF truthiness
+                    ctx.check('C08.D3', True, vm, n, 'explicit None test', func=qual, text=f'{qual}: destination chosen by `is None`')
+    if n_sel < 4:
+        ctx.shape('C08.D3', not falsy_hooks, vm, vmf_cls, 'VMF defines __len__/__bool__ and the destination-selection idiom changed: re-confirm how copy() picks its map', func='VMF', text='VMF truthiness')
     # ---- D4 --------------------------------------------------------------------------------------------
     for modname in ('vmf', 'instancing', 'bsp', 'packlist'):
         mod = prog.module(modname)
@@ -219,8 +237,11 @@ def run(ctx: Any, prog: Program) -> None:
                     mgr, meth, call = mc
                     name = qual.split('.')[-1]
                     if mgr == 'node_id':
-                        ok = name in ('remove_ent', '__setitem__', '__delitem__')
-                        ctx.check('C08.D4', ok, mod, n, f'node id released in {qual}: only remove_ent/__setitem__/__delitem__ may release (add_ent/add_ents re-acquire)', func=qual)
+                        # ownership: an entity reserves its node id for as long as it has the keyvalue (in the map or not), so only the
+                        # entity itself may release it: when the keyvalue changes, is deleted, or the object dies.
+                        ok = qual in ('Entity.__setitem__', 'Entity.__delitem__', 'Entity.__del__')
+                        ctx.check('C08.D4', ok, mod, n, f'node id released in {qual}: the entity keeps its nodeid keyvalue, so it later releases the same number again (on re-add, re-assignment or '
+                                  'deletion) - by then it may belong to another entity, which then shares its id with the next node created', func=qual, text=f'node_id.{meth} in {qual}')
                         continue
                     owner = [c for c, m in MANAGERS.items() if m == mgr][0]
                     arg = ast.unparse(call.args[0]) if call.args else ''
@@ -228,10 +249,27 @@ def run(ctx: Any, prog: Program) -> None:
                     ctx.check('C08.D4', ok, mod, n,
                               f'{mgr}.{meth}({arg}) in {qual}: an object id may only be released by {owner}.__del__; releasing it while the object is still '
                               'reachable lets the allocator hand the same id to a second live object', func=qual, text=f'{mgr}.{meth}({arg})')
-    for name in ('add_ent', 'add_ents'):
-        fn = vm.func('VMF.' + name)
-        ok = any((mc := mgr_call(n)) and mc[0] == 'node_id' and mc[1] == 'get_id' for n in walk_no_nested(fn))
-        ctx.check('C08.D4', ok, vm, fn, f'VMF.{name} must re-acquire the node id that remove_ent released', text=f'{name} re-acquires node id')
+    # acquisition: Entity.__setitem__ releases the old number and reserves the new one itself, so nobody may hand it an already reserved number
+    # (`ent['nodeid'] = str(node_id.get_id(n))`): the outer reservation leaks and the inner release may free a number somebody else holds
+    n_acq = 0
+    for modname in ('vmf', 'instancing'):
+        mod = prog.module(modname)
+        for qual, fns in mod.all_funcs().items():
+            for fn in fns:
+                for n in walk_no_nested(fn):
+                    mc = mgr_call(n)
+                    if not mc or mc[0] != 'node_id' or mc[1] != 'get_id':
+                        continue
+                    n_acq += 1
+                    st = n
+                    while st is not None and not isinstance(st, ast.stmt):
+                        st = mod.parents.get(st)
+                    via_setitem = isinstance(st, ast.Assign) and any(isinstance(t, ast.Subscript) and not (dotted(t.value) or '').endswith('_keys') and isinstance(t.slice, ast.Constant)
+                                                                     and str(t.slice.value).casefold() == 'nodeid' for t in st.targets)
+                    ctx.check('C08.D4', not via_setitem, mod, n, f'`{ast.unparse(st)[:80]}` in {qual} reserves a node id and then stores it through Entity.__setitem__, which releases the '
+                              'current number (possibly held by another entity by now) and reserves once more', func=qual, text=f'node_id.get_id stored through __setitem__ in {qual}')
+    if n_acq < 2:
+        raise AnalysisError(f'only {n_acq} node_id.get_id call sites found (Entity.__setitem__ and Instance.fixup_key confirmed by hand)')
     # ---- D5 --------------------------------------------------------------------------------------------
     fi = vm.func('EntityFixup.__init__')
     src = ast.unparse(fi)
@@ -277,6 +315,10 @@ def run(ctx: Any, prog: Program) -> None:
 
 
 MUTANTS = [
+    {'id': 'node_id_released_on_remove', 'file': 'vmf.py', 'find': "        # Neither the entity ID nor its node ID are released here.", 'replace': "        if 'nodeid' in item:\n            self.node_id.discard(int(item['nodeid']))\n        # Neither the entity ID nor its node ID are released here.", 'expect': 'C08.D4'},
+    {'id': 'node_id_reacquired_on_add', 'file': 'vmf.py', 'find': "        # A node ID is reserved by the entity for as long as it has the keyvalue, whether it is in the map or not\n", 'replace': "        if 'nodeid' in item:\n            item['nodeid'] = str(self.node_id.get_id(int(item['nodeid'])))\n", 'expect': 'C08.D4'},
+    {'id': 'vmf_gets_len', 'file': 'vmf.py', 'find': "    def iter_wbrushes(self, world: bool = True, detail: bool = True) -> Iterator['Solid']:", 'replace': "    def __len__(self) -> int:\n        return len(self.entities)\n\n    def iter_wbrushes(self, world: bool = True, detail: bool = True) -> Iterator['Solid']:", 'expect': 'C08.D3'},
+    {'id': 'vmf_gets_len_copy_uses_is_none', 'file': 'vmf.py', 'find': "    def iter_wbrushes(self, world: bool = True, detail: bool = True) -> Iterator['Solid']:", 'replace': "    def __len__(self) -> int:\n        return len(self.entities)\n\n    def iter_wbrushes(self, world: bool = True, detail: bool = True) -> Iterator['Solid']:", 'extra': [{'file': 'vmf.py', 'find': "            vmf_file or self.map,\n            des_id,", 'replace': "            self.map if vmf_file is None else vmf_file,\n            des_id,"}, {'file': 'vmf.py', 'find': "            vmf_file=vmf_file or self.map,", 'replace': "            vmf_file=self.map if vmf_file is None else vmf_file,"}, {'file': 'vmf.py', 'find': "            vmf_file or self.map,", 'replace': "            self.map if vmf_file is None else vmf_file,"}, {'file': 'vmf.py', 'find': "            vmf or self.vmf,", 'replace': "            self.vmf if vmf is None else vmf,"}], 'expect': None},
     {'id': 'fixup_reindex_in_first_pass', 'file': 'vmf.py', 'find': "            else:\n                extra_vals.append(fix)\n", 'replace': "            else:\n                self[fix.var] = fix.value\n", 'expect': 'C08.D5'},
     {'id': 'return_without_reserve', 'file': 'vmf.py', 'find': "            if poss_id not in self:\n                self._used.add(poss_id)\n", 'replace': "            if poss_id not in self:\n", 'expect': 'C08.D1'},
     {'id': 'desired_zero_allowed', 'file': 'vmf.py', 'find': "        if desired > 0 and desired not in self._used:", 'replace': "        if desired >= 0 and desired not in self._used:", 'expect': 'C08.D1'},
